@@ -144,6 +144,63 @@ def gen(rng):
     return ops
 
 
-def generate(n, seed):
+def gen_deep(rng):
+    """Deep tries: a 'comb' of nested prefixes b^i (1-b) of length i+1 (plus the spine b^j itself now and then), up to
+    64 levels, so that a descent to the far end leaves one pending sibling per level.  Range queries from every depth,
+    consumed both at once and element by element; deletions thin the comb out and the queries are repeated."""
+    width = rng.choice([40, 48, 64])
+    depth = rng.randint(30, width)
+    b = rng.randint(0, 1)
+    comb = [[b] * i + [1 - b] for i in range(depth)]
+    spine = [[b] * j for j in sorted(rng.sample(range(0, depth + 1), rng.randint(0, 4)))]
+    keys = comb + [k for k in spine if k not in comb]
+    rng.shuffle(keys)
+    queries = [[b] * j for j in (0, 1, depth // 2, depth - 1, depth, min(width, depth + 3))]
+    queries += [rng.choice(comb) for _ in range(3)] + [[1 - b], [b] * 5 + [1 - b] * 2]
+    ops = [dict(op="new", t=1)]
+    nt, nx, nf = 1, 0, 0
+    iters = []
+
+    def queries_on(src, n):
+        nonlocal nf
+        for _ in range(n):
+            nf += 1
+            iters.append(nf)
+            r = rng.random()
+            if r < 0.6:
+                ops.append(dict(op="lowerbound", s=src, p=rng.choice(queries), f=nf, junk=rng.random() < 0.3))
+            elif r < 0.85:
+                ops.append(dict(op="prefix", s=src, p=rng.choice(queries), f=nf, junk=rng.random() < 0.3))
+            else:
+                ops.append(dict(op="all", s=src, f=nf))
+            if rng.random() < 0.5:
+                for _ in range(rng.randint(1, 4)):
+                    ops.append(dict(op="next", f=nf))
+                ops.append(dict(op="iterall", f=nf))
+
+    nx += 1
+    ops.append(dict(op="begin", x=nx, t=nt))
+    for k in keys:
+        ops.append(dict(op="insert", x=nx, p=k, v=rng.randint(1, 9), junk=rng.random() < 0.3))
+    queries_on({"kind": "txn", "id": nx}, 2)
+    nt += 1
+    ops.append(dict(op="commit", x=nx, t=nt))
+    queries_on({"kind": "trie", "id": nt}, rng.randint(3, 6))
+    for _ in range(rng.randint(1, 2)):
+        nx += 1
+        ops.append(dict(op="begin", x=nx, t=nt))
+        for k in rng.sample(keys, rng.randint(1, max(1, len(keys) // 3))):
+            ops.append(dict(op="delete", x=nx, p=k, junk=False))
+        queries_on({"kind": "txn", "id": nx}, 2)
+        nt += 1
+        ops.append(dict(op="commit", x=nx, t=nt))
+        queries_on({"kind": "trie", "id": nt}, rng.randint(2, 4))
+        queries_on({"kind": "trie", "id": nt - 1}, 1)
+    for f in iters[-4:]:
+        ops.append(dict(op="iterall", f=f))
+    return ops
+
+
+def generate(n, seed, mode="shaped"):
     rng = random.Random(seed)
-    return [gen(rng) for _ in range(n)]
+    return [(gen_deep if mode == "deep" else gen)(rng) for _ in range(n)]
